@@ -68,7 +68,7 @@ def hex16 (n : Nat) : String :=
 
 def insertSorted (x : String × String) : List (String × String) → List (String × String)
   | [] => [x]
-  | y :: r => if x.1 ≤ y.1 then x :: y :: r else y :: insertSorted x r
+  | y :: r => if x.1 < y.1 || (x.1 == y.1 && x.2 ≤ y.2) then x :: y :: r else y :: insertSorted x r
 
 mutual
 partial def showVal (Pg : Prog) (ty : Ty) (v : GoVal) : String :=
